@@ -498,6 +498,9 @@ func genStreamCase(r *core.Run, sub uint64, i int) *streamCase {
 		}
 	}
 	c.EOFWithData = i%4 == 2
+	if i%8 == 3 {
+		alignStream(c.Stream, rr)
+	}
 	return c
 }
 
@@ -547,5 +550,51 @@ func replaySeqOrStream(r *core.Run, kind string, raw json.RawMessage, clauses st
 			return
 		}
 		streamEval(r, &c, clauses)
+	}
+}
+
+// alignStream pads the first text segment so that the first dump of the stream ends exactly at (or one byte
+// around) a multiple of the scanner's 16 KiB buffer: the read-ahead is then empty at the very moment a dump ends.
+func alignStream(st *gen.Stream, rr *core.Rand) {
+	off := 0
+	for i := range st.Segs {
+		sg := &st.Segs[i]
+		var n int
+		switch {
+		case sg.Dump != nil:
+			n = len(sg.Dump.Render())
+		case sg.Race != nil:
+			n = len(sg.Race.Render())
+		default:
+			off += len(sg.Text)
+			continue
+		}
+		end := off + n
+		target := ((end / 16384) + 1) * 16384
+		target += []int{0, 0, 0, -1, 1}[rr.Intn(5)]
+		pad := target - end
+		if pad < 2 {
+			pad += 16384
+		}
+		filler := strings.Repeat("p", pad-1) + "\n"
+		if pad > 200 {
+			filler = ""
+			for pad > 0 {
+				k := 100
+				if pad < 200 {
+					k = pad
+				}
+				filler += strings.Repeat("p", k-1) + "\n"
+				pad -= k
+			}
+		}
+		st.Segs = append([]gen.Seg{{Text: gen.BinStr(filler)}}, st.Segs...)
+		gen.Normalize(st)
+		// merge with a following text segment if any
+		if len(st.Segs) > 1 && st.Segs[1].Dump == nil && st.Segs[1].Race == nil {
+			st.Segs[1].Text = st.Segs[0].Text + st.Segs[1].Text
+			st.Segs = st.Segs[1:]
+		}
+		return
 	}
 }
